@@ -334,10 +334,11 @@ def main(ctx):
                 j += 1
     # ... and a component beyond 100 nodes per worker (131 + 17 + 1 nodes, one or two workers): the regime in which
     # the number of parts is capped by the worker count
+    # (W is the number of WORKERS, mpi.size - 1: a single worker with 131 nodes, two workers with 211)
     for j, m in enumerate(MEASURES if ctx.tier == "quick" else MEASURES_X):
-        cases.append({"case": "L%d" % j, "blk": "policy", "W": 2 + (j % 2 if ctx.tier != "quick" else 0),
-                      "sizes": [131, 17, 1], "gseed": ctx.seed + j, "measure": m, "silence": 3,
-                      "policy": ["eager", "random"][j % 2]})
+        for W, sizes in ((1, [131, 17, 1]), (2, [211, 5])):
+            cases.append({"case": "L%d_%d" % (j, W), "blk": "policy", "W": W, "sizes": sizes, "gseed": ctx.seed + j,
+                          "measure": m, "silence": 3, "policy": ["eager", "random"][j % 2]})
     ctx.exhaustive = False
     ctx.extra["rule"] = (
         "DESIGN: TLC model-checks MpiProtocol (all interleavings of master and worker steps, liveness) and the chunk "
